@@ -623,12 +623,14 @@ tpt_msg_async_op_alloc(tpt_p dst, tpt_msg_async_op_cb op_cb) {
 
 	if (NULL == op_cb)
 		return (NULL);
-	aop = calloc(1, sizeof(tpt_msg_async_op_t));
-	if (NULL == aop)
-		return (NULL);
 	if (NULL == dst) {
 		dst = tpt_get_current();
 	}
+	if (NULL == dst) /* Not pool thread: nobody to run op_cb, record would leak. */
+		return (NULL);
+	aop = calloc(1, sizeof(tpt_msg_async_op_t));
+	if (NULL == aop)
+		return (NULL);
 	aop->tpt = dst;
 	aop->op_cb = op_cb;
 
